@@ -25,6 +25,8 @@ def shards(tier):
             out.append({"steps": s, "rsub": [3, 3], "xdrop": 1})
             out.append({"steps": s, "rsub": [2, 2], "xdrop": 1, "r1fail": 2})
             out.append({"steps": s, "rsub": [2, 2], "xdrop": 0, "r1fail": 1})
+            out.append({"steps": s, "rsub": [2, 2], "xdrop": 0, "r0block": 1})
+            out.append({"steps": s, "rsub": [2, 3], "xdrop": 1, "r0block": 2})
     else:
         seqs = [list(s) for n in (1, 2, 3) for s in itertools.product(KINDS, repeat=n)]
         for s in seqs:
@@ -34,6 +36,8 @@ def shards(tier):
                 if len(s) <= 2:
                     out.append({"steps": s, "rsub": [3, 2], "xdrop": 1, "r1fail": 2})
                     out.append({"steps": s, "rsub": [2, 2], "xdrop": 0, "r1fail": 1})
+                    out.append({"steps": s, "rsub": [2, 3], "xdrop": 1, "r0block": 1})
+                    out.append({"steps": s, "rsub": [2, 2], "xdrop": 0, "r0block": 2})
     return out
 
 
